@@ -128,15 +128,6 @@ def merge(ctx, tk):
     check_guard(ctx, "C16.b", f, sinks, Formulas([m]), lambda A: A["same_length"], ["same_length"],
                 "two run-length arrays are combined only after refusing unless they have the same length", fa=fa)
     rlrules.canonical_construction(ctx, "C16.b", f)
-    # merged boundaries: all but the last boundary of the first operand ++ all but the first of the other, stably sorted
-    for n in fa.cfg.stmts():
-        if n.kind == "stmt" and isinstance(n.ast, ast.Assign):
-            tm = fa.term(n.ast.value, n)
-            if np_call(tm, {"argsort"}):
-                kind = dict(tm.a[2]).get("kind")
-                ok = kind is not None and kind.k == "const" and kind.a[0] in ("mergesort", "stable")
-                ctx.decide("C16.b", f, "coincident boundaries keep their operand order (stable sort)", True if ok else False,
-                           "argsort kind=%s is not stable: values at coincident boundaries are paired wrongly" % (kind,), node=n.ast, key="stable", engine="KB")
 
 
 def reductions(ctx, tk):
